@@ -1,1 +1,283 @@
-(* Front/IntTy.v -- stub, to be filled *)
+(* Front/IntTy.v -- C15: which Rust integer type an ASN.1 INTEGER constraint is mapped to.
+
+   Models, function for function,
+     asn1rs-model/src/asn/integer.rs   Integer::try_from (range part) and TryResolve
+     asn1rs-model/src/rust.rs          asn_fixed_integer_to_rust_type, asn_extensible_integer_to_rust,
+                                       RustType::integer_range_str, the dispatch on `range.extensible()`
+     asn1rs-model/src/generate/rust.rs add_min_max_fn_if_applicable, format_number_nicely
+     asn1rs-model/src/generate/walker.rs write_integer_constraint_type (MIN/MIN_T/MAX/MAX_T/EXTENSIBLE)
+   The thresholds I8_MAX .. U32_MAX come from Gen/IntConsts.v (generated from rust.rs). *)
+From A1 Require Export Base.Res.
+From A1 Require Export Gen.IntConsts.
+From Coq Require Import Decimal DecimalZ.
+Local Open Scope Z_scope.
+
+(** * Rust integer kinds *)
+Inductive ikind := U8 | I8 | U16 | I16 | U32 | I32 | U64 | I64.
+
+Definition width (k : ikind) : Z :=
+  match k with U8 | I8 => 8 | U16 | I16 => 16 | U32 | I32 => 32 | U64 | I64 => 64 end.
+Definition signed (k : ikind) : bool :=
+  match k with I8 | I16 | I32 | I64 => true | _ => false end.
+(* literal tables (lia-friendly); [kind_tables_ok] below ties them to 2^width *)
+Definition kmin (k : ikind) : Z :=
+  match k with I8 => -128 | I16 => -32768 | I32 => -2147483648 | I64 => -9223372036854775808 | _ => 0 end.
+Definition kmax (k : ikind) : Z :=
+  match k with
+  | U8 => 255 | I8 => 127 | U16 => 65535 | I16 => 32767 | U32 => 4294967295 | I32 => 2147483647
+  | U64 => 18446744073709551615 | I64 => 9223372036854775807
+  end.
+Definition modulus (k : ikind) : Z :=
+  match k with
+  | U8 | I8 => 256 | U16 | I16 => 65536 | U32 | I32 => 4294967296 | U64 | I64 => 18446744073709551616
+  end.
+
+Definition i64_min : Z := -9223372036854775808.
+Definition i64_max : Z := 9223372036854775807.
+Definition u64_max : Z := 18446744073709551615.
+Definition in_i64 (z : Z) : bool := (i64_min <=? z) && (z <=? i64_max).
+
+Lemma kind_tables_ok k :
+  modulus k = 2 ^ width k /\
+  kmin k = (if signed k then - 2 ^ (width k - 1) else 0) /\
+  kmax k = (if signed k then 2 ^ (width k - 1) - 1 else 2 ^ width k - 1).
+Proof. destruct k; repeat split; reflexivity. Qed.
+Lemma i64_tables_ok : i64_min = kmin I64 /\ i64_max = kmax I64 /\ u64_max = kmax U64.
+Proof. repeat split; reflexivity. Qed.
+
+(* `x as <kind>` on a two's complement value: reduce modulo 2^width into [kmin, kmax] *)
+Definition cast (k : ikind) (z : Z) : Z := (z - kmin k) mod modulus k + kmin k.
+Definition wrap_u64 (z : Z) : Z := cast U64 z.
+Definition wrap_i64 (z : Z) : Z := cast I64 z.
+
+(* i64 `+` and `.abs()`: overflow panics with overflow checks, wraps without *)
+Definition i64_add (m : mode) (a b : Z) : res Z :=
+  let r := a + b in
+  if in_i64 r then Ok r else if overflow_checks m then Panic P_ARITH else Ok (wrap_i64 r).
+Definition i64_abs (m : mode) (a : Z) : res Z :=
+  let r := Z.abs a in
+  if in_i64 r then Ok r else if overflow_checks m then Panic P_ARITH else Ok (wrap_i64 r).
+
+(** * Source level: what is written in the ASN.1 module *)
+Inductive sbound := Lit (z : Z) | Kw.          (* a number, or the keyword MIN (lower) / MAX (upper) *)
+Inductive srange := Unconstrained | Constrained (lo hi : sbound) (ext : bool).
+
+(** * integer.rs: the parsed and the resolved range *)
+Inductive lor := LLit (z : Z) | LRef (z : Z).  (* LRef: text that `parse::<i64>` rejected, kept as a reference name *)
+
+Definition E_PARSE : N := 1.
+Definition E_RESOLVE : N := 2.
+
+(* `.text().filter(!MIN/MAX).map(parse::<i64>)` on the decimal text of z *)
+Definition parse_bound (b : sbound) : option lor :=
+  match b with
+  | Kw => None
+  | Lit z => Some (if in_i64 z then LLit z else LRef z)
+  end.
+
+Definition parse_range (r : srange) : option lor * option lor * bool :=
+  match r with
+  | Unconstrained => (None, None, false)
+  | Constrained lo hi ext =>
+      match parse_bound lo, parse_bound hi with
+      | Some (LLit l), None => if l =? 0 then (None, None, ext) else (Some (LLit l), None, ext)
+      | None, Some (LLit h) => if h =? i64_max then (None, None, ext) else (None, Some (LLit h), ext)
+      | s, e => (s, e, ext)
+      end
+  end.
+
+(* ResolveScope::resolve in a module without value references *)
+Definition resolve_bound (o : option lor) : res (option Z) :=
+  match o with
+  | None => Ok None
+  | Some (LLit z) => Ok (Some z)
+  | Some (LRef _) => Err E_RESOLVE
+  end.
+
+Definition resolve_range (p : option lor * option lor * bool) : res (option Z * option Z * bool) :=
+  let '(lo, hi, ext) := p in
+  let! lo := resolve_bound lo in
+  let! hi := resolve_bound hi in
+  Ok (lo, hi, ext).
+
+Definition front_range (r : srange) : res (option Z * option Z * bool) := resolve_range (parse_range r).
+
+(** * rust.rs: RustType of an integer = kind + Range *)
+Record rty := { rk : ikind; rmin : option Z; rmax : option Z; rext : bool }.
+
+Definition unwrap_or (o : option Z) (d : Z) : Z := match o with Some z => z | None => d end.
+
+(* the first match arm shared by both functions *)
+Definition is_unconstrained_pair (lo hi : option Z) : bool :=
+  match lo, hi with
+  | None, None => true
+  | Some l, None => l =? 0
+  | Some l, Some h => (l =? 0) && (h =? i64_max)
+  | None, Some h => h =? i64_max
+  end.
+
+Definition fixed_range (k : ikind) (min max : Z) : rty :=
+  {| rk := k; rmin := Some (cast k min); rmax := Some (cast k max); rext := false |}.
+
+Definition fixed_int_type (m : mode) (lo hi : option Z) : res rty :=
+  if is_unconstrained_pair lo hi then Ok {| rk := U64; rmin := None; rmax := None; rext := false |}
+  else
+    let min := unwrap_or lo 0 in
+    let max := unwrap_or hi i64_max in
+    if 0 <=? min then
+      let mx := wrap_u64 max in                       (* max as u64 *)
+      if mx <=? U8_MAX then Ok (fixed_range U8 min max)
+      else if mx <=? U16_MAX then Ok (fixed_range U16 min max)
+      else if mx <=? U32_MAX then Ok (fixed_range U32 min max)
+      else Ok (fixed_range U64 min max)
+    else
+      let! m1 := i64_add m min 1 in
+      let! a := i64_abs m m1 in
+      let amp := Z.max a max in                        (* (min + 1).abs().max(max) *)
+      if amp <=? I8_MAX then Ok (fixed_range I8 min max)
+      else if amp <=? I16_MAX then Ok (fixed_range I16 min max)
+      else if amp <=? I32_MAX then Ok (fixed_range I32 min max)
+      else Ok (fixed_range I64 min max).
+
+Definition ext_int_type (lo hi : option Z) : rty :=
+  if is_unconstrained_pair lo hi then {| rk := U64; rmin := None; rmax := None; rext := true |}
+  else if (0 <=? unwrap_or lo 0) && (0 <=? unwrap_or hi 0) then
+    {| rk := U64; rmin := option_map wrap_u64 lo; rmax := option_map wrap_u64 hi; rext := true |}
+  else
+    {| rk := I64; rmin := Some (unwrap_or lo i64_min); rmax := Some (unwrap_or hi i64_max); rext := true |}.
+
+(* definition_type_to_rust_type, INTEGER arms *)
+Definition int_type (m : mode) (lo hi : option Z) (ext : bool) : res rty :=
+  if ext then Ok (ext_int_type lo hi) else fixed_int_type m lo hi.
+
+(* the whole chain for `T ::= INTEGER ...` *)
+Definition src_int_type (m : mode) (r : srange) : res rty :=
+  let! x := front_range r in
+  let '(lo, hi, ext) := x in
+  int_type m lo hi ext.
+
+(** * Decimal text (Display for the integer types) as char codes *)
+Fixpoint uint_codes (d : uint) : list Z :=
+  match d with
+  | Nil => []
+  | D0 d => 48 :: uint_codes d | D1 d => 49 :: uint_codes d | D2 d => 50 :: uint_codes d
+  | D3 d => 51 :: uint_codes d | D4 d => 52 :: uint_codes d | D5 d => 53 :: uint_codes d
+  | D6 d => 54 :: uint_codes d | D7 d => 55 :: uint_codes d | D8 d => 56 :: uint_codes d
+  | D9 d => 57 :: uint_codes d
+  end.
+
+Definition to_string (z : Z) : list Z :=
+  match Z.to_int z with
+  | Pos d => uint_codes d
+  | Neg d => 45 :: uint_codes d
+  end.
+
+(* integer_range_str *)
+Definition integer_range_str (t : rty) : list Z * list Z :=
+  match rk t with
+  | U64 => (to_string (unwrap_or (rmin t) 0), to_string (unwrap_or (rmax t) (wrap_u64 i64_max)))
+  | _ => (to_string (unwrap_or (rmin t) 0), to_string (unwrap_or (rmax t) 0))   (* always Some for these kinds *)
+  end.
+
+(** * generate/rust.rs: format_number_nicely *)
+Definition is_numeric (c : Z) : bool := (48 <=? c) && (c <=? 57).     (* ASCII only; non-ASCII is out of model *)
+
+Fixpoint nice_loop (pos : Z) (l : list Z) : list Z :=
+  match l with
+  | [] => []
+  | c :: t =>
+      let pos' := (pos + 1) mod 3 in
+      if (pos' =? 0) && is_numeric c then c :: 95 :: nice_loop pos' t else c :: nice_loop pos' t
+  end.
+
+(* `let len = out.len(); out.remove(len - 1);` *)
+Definition remove_last (m : mode) (out : list Z) : res (list Z) :=
+  match out with
+  | [] => if overflow_checks m then Panic P_ARITH else Panic P_OTHER
+  | _ => Ok (removelast out)
+  end.
+
+Definition format_number_nicely (m : mode) (s : list Z) : res (list Z) :=
+  let len := Z.of_nat (length s) in
+  remove_last m (nice_loop ((3 - len mod 3) mod 3) s).
+
+(* add_min_max_fn_if_applicable: (return type, body of value_min, body of value_max) *)
+Definition min_max_fn_text (m : mode) (t : rty) : res (ikind * list Z * list Z) :=
+  let '(smin, smax) := integer_range_str t in
+  let! a := format_number_nicely m smin in
+  let! b := format_number_nicely m smax in
+  Ok (rk t, a, b).
+
+(** * Reading a Rust integer literal back (the inverse used by C15_accessors) *)
+Fixpoint codes_uint (l : list Z) : option uint :=
+  match l with
+  | [] => Some Nil
+  | c :: t =>
+      if c =? 95 then codes_uint t      (* `_` separators are ignored by the Rust lexer *)
+      else match codes_uint t with
+           | None => None
+           | Some d =>
+               match c with
+               | 48 => Some (D0 d) | 49 => Some (D1 d) | 50 => Some (D2 d) | 51 => Some (D3 d)
+               | 52 => Some (D4 d) | 53 => Some (D5 d) | 54 => Some (D6 d) | 55 => Some (D7 d)
+               | 56 => Some (D8 d) | 57 => Some (D9 d) | _ => None
+               end
+           end
+  end.
+
+Definition parse_num (l : list Z) : option Z :=
+  match l with
+  | [] => None
+  | 45 :: t => match codes_uint t with Some Nil | None => None | Some d => Some (Z.of_int (Neg d)) end
+  | _ => match codes_uint l with Some Nil | None => None | Some d => Some (Z.of_int (Pos d)) end
+  end.
+
+(** * generate/walker.rs: write_integer_constraint_type *)
+(* (type, MIN, MIN_T, MAX, MAX_T, EXTENSIBLE): the four constants are emitted only for Some bounds *)
+Definition walker_consts (t : rty) : ikind * option Z * option Z * option Z * option Z * bool :=
+  (rk t, rmin t, rmin t, rmax t, rmax t, rext t).
+
+(** * The specification side: which values a source range permits, and what a kind can hold *)
+Definition fits (k : ikind) (v : Z) : Prop := kmin k <= v <= kmax k.
+Definition fitsb (k : ikind) (v : Z) : bool := (kmin k <=? v) && (v <=? kmax k).
+
+Definition permitted (lo hi : sbound) (v : Z) : Prop :=
+  match lo with Lit l => l <= v | Kw => True end /\
+  match hi with Lit h => v <= h | Kw => True end.
+
+(* "within 64 bits": a lower bound that is negative or absent calls for a signed type (values in i64),
+   a non-negative one for an unsigned type (values in u64) *)
+Definition needs_signed (lo : sbound) : bool := match lo with Lit l => l <? 0 | Kw => true end.
+Definition rep64 (lo : sbound) (v : Z) : Prop :=
+  if needs_signed lo then i64_min <= v <= i64_max else 0 <= v <= u64_max.
+
+(* well-formed source range: literal bounds are i64 literals and lo <= hi *)
+Definition wf_bound (b : sbound) : Prop := match b with Lit z => i64_min <= z <= i64_max | Kw => True end.
+Definition wf_range (lo hi : sbound) : Prop :=
+  wf_bound lo /\ wf_bound hi /\ match lo, hi with Lit l, Lit h => l <= h | _, _ => True end.
+
+Definition sr_lo (r : srange) : sbound := match r with Unconstrained => Kw | Constrained lo _ _ => lo end.
+Definition sr_hi (r : srange) : sbound := match r with Unconstrained => Kw | Constrained _ hi _ => hi end.
+Definition sr_ext (r : srange) : bool := match r with Unconstrained => false | Constrained _ _ e => e end.
+Definition wf_srange (r : srange) : Prop := wf_range (sr_lo r) (sr_hi r).
+
+(* the interval [eff_lo, eff_hi] that is permitted and representable in 64 bits *)
+Definition eff_lo (lo : sbound) : Z := match lo with Lit l => l | Kw => i64_min end.
+Definition eff_hi (lo hi : sbound) : Z :=
+  match hi with Lit h => h | Kw => if needs_signed lo then i64_max else u64_max end.
+
+(** * Known findings (classes of checks/C15.py) *)
+(* no lower bound (MIN or plain INTEGER) is taken as 0 => unsigned type; the only escape is the
+   extensible range with a negative upper bound, which becomes i64 *)
+Definition Known_no_lower_bound_unsigned (r : srange) : Prop :=
+  sr_lo r = Kw /\ ~ (sr_ext r = true /\ exists h, sr_hi r = Lit h /\ h < 0).
+Definition Known_C15 := Known_no_lower_bound_unsigned.
+
+(* no upper bound (MAX or plain INTEGER) on a non-negative lower bound => u64 whose upper bound /
+   value_max() is i64::MAX *)
+Definition Known_max_keyword_i64max_on_u64 (r : srange) : Prop :=
+  sr_hi r = Kw /\ needs_signed (sr_lo r) = false.
+
+(* what the accessors / kept bounds are expected to be *)
+Definition declared_lo (r : srange) (k : ikind) : Z := match sr_lo r with Lit l => l | Kw => kmin k end.
+Definition declared_hi (r : srange) (k : ikind) : Z := match sr_hi r with Lit h => h | Kw => kmax k end.
